@@ -115,6 +115,13 @@ struct Gen {
 }
 
 impl Gen {
+    /// the value of the next write: unique; usually the next of a rising series, but with validators
+    /// in play sometimes one of a falling series far above it, so that "only newer values" validators
+    /// see both newer and older candidates (and an argument swap is not invisible)
+    fn value(&self, rng: &mut Rng, p: &Profile) -> u64 {
+        if p.validators && rng.chance(1, 4) { 10_000_000_000 - self.next_val } else { self.next_val }
+    }
+
     fn key(&self, rng: &mut Rng, p: &Profile) -> (u64, u64) {
         let idx = rng.range(1, self.nkeys);
         if p.collisions {
@@ -154,11 +161,11 @@ impl Gen {
             0..=34 => {
                 self.next_val += 1;
                 let ttl = if p.ttl && rng.chance(2, 5) { *rng.pick(&TTLS) } else { 0 };
-                Op::Insert { idx, conf, val: self.next_val, cost, ttl_ns: ttl, only: false }
+                Op::Insert { idx, conf, val: self.value(rng, p), cost, ttl_ns: ttl, only: false }
             }
             35..=41 => {
                 self.next_val += 1;
-                Op::Insert { idx, conf, val: self.next_val, cost, ttl_ns: 0, only: true }
+                Op::Insert { idx, conf, val: self.value(rng, p), cost, ttl_ns: 0, only: true }
             }
             42..=61 => Op::Get { idx, conf },
             62..=66 => {
